@@ -228,7 +228,9 @@ EXTRA_TEXT = {
            "or exactly the registers the program reads); per step the log carries the instruction's data-flow summary from iced's "
            "InstructionInfo and where the machines differ; Trace_Taint.tla carries the taint set (TwoRun!TaintG, whose noninterference "
            "MC_Taint model-checks on a machine with partial writes, conditional moves, memory and refused instructions) and demands agreement "
-           "of outcome, error text, RIP, count, log and of every untainted register, flag and memory.",
+           "of outcome, error text, RIP, count, log and of every untainted register, flag and memory. The rule itself is PROVED sound (TLAPS, "
+           "TaintSound.tla: 70 obligations) for any instruction set whose instructions respect their summaries; MC_Taint's machine is checked "
+           "by TLC to be a model of the proof's assumptions.",
 }
 EXTRA_TECH = {
     "C01": "; exhaustive 8-bit tables printed by TLC replayed on ax; whole-program validation against the composed machine",
@@ -236,7 +238,7 @@ EXTRA_TECH = {
     "C03": "; whole-program validation", "C04": "; whole-program validation", "C06": "; Memory.tla validation of fault histories; whole-program validation",
     "C10": "; Apalache inductive invariant (unbounded addresses)",
     "C11": "; whole-program validation (step / execute / limit) against the composed machine", "C18": "; whole-program validation",
-    "C20": "; taint-carrying trace validation of partially written two-run programs (noninterference model-checked)",
+    "C20": "; taint-carrying trace validation of partially written two-run programs (noninterference model-checked with TLC and proved with TLAPS)",
 }
 
 
